@@ -55,7 +55,7 @@ func (C19) Meta() core.Meta {
 		Real:        []string{"agessh.EncryptedSSHIdentity", "agessh Ed25519/RSA identities", "x/crypto/ssh key parsing", "filippo.io/age Decrypt"},
 		Stub:        []string{"passphrase callback", "files (reference writer)", "source"},
 		FaultKinds:  []string{"fault.passphrase_wrong", "fault.passphrase_error", "fault.mismatched_private_key"},
-		Probes:      []string{"probe.prompted", "probe.no_prompt_no_match", "probe.validated_then_reused", "probe.after_mismatch_file_to_B", "probe.after_mismatch_same_file", "probe.after_wrong_then_right", "probe.match_not_first_stanza", "probe.same_type_other_tag", "probe.crafted_other_type_same_tag", "probe.crafted_same_tag_bad_body", "probe.key_file_of_other_type"},
+		Probes:      []string{"probe.prompted", "probe.no_prompt_no_match", "probe.validated_then_reused", "probe.after_mismatch_file_to_B", "probe.after_mismatch_same_file", "probe.after_wrong_then_right", "probe.match_not_first_stanza", "probe.same_type_other_tag", "probe.crafted_other_type_same_tag", "probe.crafted_same_tag_bad_body", "probe.crafted_other_tag_bad_args", "probe.key_file_of_other_type"},
 	}
 }
 
@@ -110,7 +110,7 @@ func (C19) Generate(r *core.RNG, tier string, idx uint64) interface{} {
 		}
 		if r.Chance(1, 4) {
 			// a crafted stanza (the header MAC is only checked after an identity produced a file key)
-			crafted := []string{"A~other", "A~other", "A~bad", "my-noargs", "other-noargs"}[r.Intn(5)]
+			crafted := []string{"A~other", "A~other", "A~bad", "my-noargs", "other-noargs", "B~badargs", "B~badargs"}[r.Intn(7)]
 			at := r.Intn(len(cl.Stanzas) + 1)
 			cl.Stanzas = append(cl.Stanzas[:at:at], append([]string{crafted}, cl.Stanzas[at:]...)...)
 		}
@@ -247,6 +247,7 @@ func (e C19) Execute(plan interface{}, c *core.Ctx) *core.Verdict {
 			noargs bool
 			tagA   bool // carries the declared key's tag
 			opens  bool // honestly wrapped to A
+			badargs bool // wrong number of arguments for the type (and another key's tag)
 		}
 		var views []view
 		for si, who := range cl.Stanzas {
@@ -302,6 +303,22 @@ func (e C19) Execute(plan interface{}, c *core.Ctx) *core.Verdict {
 				}
 				vw.mine, vw.tagA = true, true
 				c.Stats.Inc("probe.crafted_same_tag_bad_body")
+			case "B~badargs":
+				// the identity's type, ANOTHER key's tag, and a wrong number of arguments: the match scan skips it,
+				// the plain identity rejects the whole list when it meets it before a stanza it can open
+				tagB := ""
+				if p.Type == "ed" {
+					tagB = ref.SSHTag(ref.WireEd25519(ks.edB.Public().(ed25519.PublicKey)))
+					st = &ref.Stanza{Type: myType, Args: []string{tagB}, Body: rng.Bytes(32)}
+					if rng.Bool() {
+						st.Args = []string{tagB, ref.B64(rng.Bytes(32)), "extra"}
+					}
+				} else {
+					tagB = ref.SSHTag(ref.WireRSA(&ks.rsaB.PublicKey))
+					st = &ref.Stanza{Type: myType, Args: []string{tagB, "extra"}, Body: rng.Bytes(256)}
+				}
+				vw.mine, vw.badargs = true, true
+				c.Stats.Inc("probe.crafted_other_tag_bad_args")
 			case "my-noargs":
 				st = &ref.Stanza{Type: myType, Body: rng.Bytes(32)}
 				vw.mine, vw.noargs = true, true
@@ -326,8 +343,8 @@ func (e C19) Execute(plan interface{}, c *core.Ctx) *core.Verdict {
 				if !vw.mine {
 					continue
 				}
-				if vw.noargs {
-					return "fatal"
+				if vw.noargs || vw.badargs {
+					return "fatal" // the plain identities check the argument count before the tag
 				}
 				if !vw.tagA {
 					continue
